@@ -23,6 +23,17 @@ class CTX:
     tag = 'server-side context'
 
 
+class FalsyContext:
+    """a context object that is falsy (an empty session / mapping-like object)"""
+    tag = 'falsy server-side context'
+
+    def __len__(self):
+        return 0
+
+
+FALSY = FalsyContext()
+
+
 def signatures(maxn):
     """all valid (kind, has_default) sequences with <= maxn parameters"""
     out = []
@@ -201,7 +212,7 @@ def run_case(case, rec):
                 d.add(fn, name='f', context='ctx')
             else:
                 d.add(fn, name='f', context='ctx', positional=True)
-        for inp in inputs(names_all):
+        for ctxobj, inp in ((c_, i_) for c_ in ((CTX, FALSY) if mode != 'none' else (CTX,)) for i_ in inputs(names_all)):
             # ---- the oracle: python binds the twin
             del twin_log[:]
             try:
@@ -219,17 +230,17 @@ def run_case(case, rec):
                 if disp == 'async':
                     loop = VLoop()
                     try:
-                        r = loop.run(d.dispatch(text, context=CTX))
+                        r = loop.run(d.dispatch(text, context=ctxobj))
                     finally:
                         loop.close()
                 else:
-                    r = d.dispatch(text, context=CTX)
+                    r = d.dispatch(text, context=ctxobj)
                 resp = json.loads(r[0])
             except Exception as e:   # noqa
                 resp = {'raised': '%s: %s' % (type(e).__name__, e)}
             rec.transitions += 1
             got_code = resp.get('error', {}).get('code') if 'error' in resp else None
-            c = dict(sig=sig, mode=mode, pos=pos, disp=disp, flavour=flavour, input=inp, source=src.split('\n')[0])
+            c = dict(sig=sig, mode=mode, pos=pos, disp=disp, flavour=flavour, input=inp, source=src.split('\n')[0], falsy_context=ctxobj is FALSY)
             problem = None
             if 'raised' in resp:
                 problem = 'dispatch raised'
@@ -247,8 +258,8 @@ def run_case(case, rec):
                     loc, self_ = log[0]
                     loc = dict(loc)
                     ctxv = loc.pop('ctx', None) if mode in ('name', 'positional') else (self_.context if self_ is not None else None)
-                    if mode != 'none' and ctxv is not CTX:
-                        problem = 'context parameter did not receive the server-side context'
+                    if mode != 'none' and ctxv is not ctxobj:
+                        problem = 'context parameter did not receive the server-side context%s' % (' (falsy context object)' if ctxobj is FALSY else '')
                     elif norm(loc) != want[1]:
                         problem = 'method saw other arguments than a direct call binds'
                     elif resp.get('result') != RESULT:
@@ -258,11 +269,78 @@ def run_case(case, rec):
                 rec.violation('C04:%s:%s' % (problem, sp), c, expected=want, observed=dict(response=resp, saw=[norm(x[0]) if not isinstance(x[0].get('ctx'), type) else {k: (v if k != 'ctx' else '<CTX>') for k, v in x[0].items()} for x in log]))
             obs.append((disp, flavour, repr(inp), problem))
         rec.counters['programs'] += 1
+    if mode in ('name', 'positional'):
+        obs.append(double_registration(sig, mode, full, twin_params, sp, rec))
     rec.states += 1
     rec.traces += 1
     if sp == 'sig-has[]':
         rec.nontrivial_n += 1
     return tuple(obs)
+
+
+def double_registration(sig, mode, full, twin_params, sp, rec):
+    """
+    the SAME function object registered twice on one dispatcher: as 'f' with its context parameter designated, and as
+    'g' without any context (there 'ctx' is an ordinary parameter).  Whatever is cached per function must not make one
+    registration behave like the other, whichever is called first.
+    """
+    out = []
+    names_f = [p[0] for p in twin_params] + ['zz', 'ctx']
+    for first in ('g', 'f'):
+        log = []
+        fn, src = make_fn(full, log, name='f')
+        d = pjrpc.server.Dispatcher()
+        if mode == 'name':
+            d.add(fn, name='f', context='ctx')
+        else:
+            d.add(fn, name='f', context='ctx', positional=True)
+        d.add(fn, name='g')
+        tl_f, tl_g = [], []
+        twin_f, _ = make_fn(twin_params, tl_f, name='twin')
+        twin_g, _ = make_fn(full, tl_g, name='twin')
+        for target in ((first,) + ('f', 'g', 'f')):
+            twin, tl = (twin_f, tl_f) if target == 'f' else (twin_g, tl_g)
+            for inp in inputs(names_f):
+                if isinstance(inp, dict) and len(inp) > 3:
+                    continue
+                del tl[:]
+                try:
+                    twin(*inp) if isinstance(inp, list) else twin(**inp)
+                    want = ('call', norm(tl[0][0]))
+                except TypeError:
+                    want = ('refuse', None)
+                del log[:]
+                text = json.dumps({'jsonrpc': '2.0', 'id': 1, 'method': target, 'params': inp})
+                try:
+                    resp = json.loads(d.dispatch(text, context=CTX)[0])
+                except Exception as e:   # noqa
+                    resp = {'raised': '%s: %s' % (type(e).__name__, e)}
+                rec.transitions += 1
+                code = resp.get('error', {}).get('code') if 'error' in resp else None
+                problem = None
+                if 'raised' in resp:
+                    problem = 'dispatch raised'
+                elif want[0] == 'refuse':
+                    if code != -32602 or log:
+                        problem = 'unbindable arguments not refused with -32602 (%s)' % ('executed' if log else 'code %s' % code)
+                else:
+                    if code is not None:
+                        problem = 'bindable arguments refused with %s' % code
+                    elif len(log) != 1:
+                        problem = 'body ran %d times' % len(log)
+                    else:
+                        loc = dict(log[0][0])
+                        if target == 'f':
+                            if loc.pop('ctx', None) is not CTX:
+                                problem = 'context parameter did not receive the server-side context'
+                        if problem is None and norm(loc) != want[1]:
+                            problem = 'method saw other arguments than a direct call binds'
+                if problem:
+                    rec.violation('C04:%s:%s' % (problem + (' [same function registered with and without context]' if sp == 'sig-has[]' else ''), sp),
+                                  dict(sig=sig, mode=mode, double_registration=True, called_first=first, target=target, input=inp, source=src.split('\n')[0]),
+                                  expected=want, observed=dict(response=resp))
+                out.append(problem)
+    return tuple(out)
 
 
 def run(ctx):
